@@ -330,7 +330,7 @@ func (b *GRPCBroker) Accept(id uint32) (net.Listener, error) {
 		}
 
 		go func() {
-			err := b.listenForKnocks(id)
+			err := b.listenForKnocks(id, p)
 			if err != nil {
 				log.Printf("[ERR]: error listening for knocks, id: %d, error: %s", id, err)
 			}
@@ -451,8 +451,7 @@ func (b *GRPCBroker) Close() error {
 	return nil
 }
 
-func (b *GRPCBroker) listenForKnocks(id uint32) error {
-	p := b.getServerStream(id)
+func (b *GRPCBroker) listenForKnocks(id uint32, p *gRPCBrokerPending) error {
 	for {
 		select {
 		case msg := <-p.ch:
